@@ -34,6 +34,13 @@ FAMS = {
     # (spectroscopy) interconvertible; osyris must keep them distinct dimensions
     "temperature": ["K", "mK"],
     "frequency": ["Hz", "1/s", "1/yr"],
+    # (and the "Gaussian" context relates SI and Gaussian electromagnetic quantities)
+    "magnetic_gaussian": ["G", "mG", "statV/cm"],
+    "magnetic_SI": ["T", "Wb/m**2"],
+    "electric_SI": ["V/m"],
+    "capacitance": ["F"],
+    "resistance": ["ohm", "V/A"],
+    "current": ["A", "C/s"],
 }
 QUICK = {k: v[: (6 if k in ("length", "mass", "luminosity") else 4)] for k, v in FAMS.items()}
 
@@ -63,6 +70,12 @@ def cases(thorough):
     for a, b in [("cm/s", "cm*s**-1"), ("g/cm**3", "g*cm**-3"), ("M_sun", "solar_mass"), ("M_sun", "M_sol"), ("erg", "g*cm**2/s**2"),
                  ("m", "meter"), ("yr", "year"), ("km/s", "kilometer/second"), ("", "dimensionless")]:
         yield {"block": "spelling", "a": a, "b": b}
+    # unit strings that differ only by white space but mean different things (a space is a product): each must be
+    # parsed for what it says, whatever was requested before it in the same process
+    for a, b in [("m K", "mK"), ("m s", "ms"), ("m in", "min"), ("m G", "mG"), ("k g", "kg")]:
+        yield {"block": "spelling_sequence", "seq": [a, b]}
+        yield {"block": "spelling_sequence", "seq": [b, a]}
+        yield {"block": "spelling_sequence", "seq": [a, b, a]}
     yield {"block": "unit_passthrough"}
     yield {"block": "quantity_rejected"}
 
@@ -200,6 +213,28 @@ def run_case(acc, idx, c):
         if not same:
             acc.violation("C08:equivalent-spellings-give-different-units", idx, c, {"a": str(ua), "b": str(ub)})
             return "bad", True
+        return "ok", True
+    if blk == "spelling_sequence":
+        want = {"m K": (100.0, M2.dims_of(cm=1, K=1)), "mK": (1e-3, M2.dims_of(K=1)), "m s": (100.0, M2.dims_of(cm=1, s=1)),
+                "ms": (1e-3, M2.dims_of(s=1)), "m in": (254.0, M2.dims_of(cm=2)), "min": (60.0, M2.dims_of(s=1)),
+                "m G": (100.0, tuple(x + y for x, y in zip(M2.dims_of(cm=1), M2.GAUSS))), "mG": (1e-3, M2.GAUSS),
+                "k g": None, "kg": (1000.0, M2.dims_of(g=1))}
+        for step, name in enumerate(c["seq"]):
+            exp = want[name]
+            try:
+                u = osyris.units(name)
+                sc, dm, _ = M2.unit_info(u)
+            except Exception as e:
+                if exp is None:
+                    continue  # "k g" is not a unit expression pint understands: any refusal is fine
+                acc.violation("C08:unit-string-unusable", idx, c, {"name": name, "error": repr(e)[:100]})
+                return "bad", True
+            if exp is None:
+                continue
+            if tuple(dm) != tuple(exp[1]) or not np.isclose(sc, exp[0], rtol=1e-12):
+                acc.violation("C08:unit-string-parsed-as-another-unit" + (":after-earlier-requests" if step else ""), idx, c,
+                              {"name": name, "got": str(u), "step": step})
+                return "bad", True
         return "ok", True
     if blk == "unit_passthrough":
         u = osyris.units("km")
